@@ -22,6 +22,8 @@ ASSUMPTIONS = ["dumps are read back through libvata's own Timbuk serializer/pars
 FLAVOURS = {"quick": ["plain"], "thorough": ["plain", "asan"]}
 SIG = [(0, 0), (1, 0), (2, 1), (3, 2)]
 CORPUS = [
+    "bu 5 ; L 0 T 1 101 2 0 100 0 3 101 2 100 100 ; L 1 T 1 1 3 1 0 0 2 1 1 0 2 1 1 1 ; L 2 T 1 1 2 0 0 0 2 1 1 0 ; UD 3 0 1 ; UD 4 0 2",      # D14
+    "td 5 ; L 0 T 1 101 2 0 100 0 3 101 2 100 100 ; L 1 T 1 1 2 0 2 0 2 1 1 2 ; L 2 T 1 1 1 2 1 1 2 ; UD 3 0 1 ; UD 4 0 2",                        # D14, top-down: dangling child
     "bu 5 ; L 0 T 1 0 2 0 0 0 1 1 0 ; C 1 0 ; F 1 1 ; U 2 0 1 ; UD 3 0 1",          # D11
     "td 5 ; L 0 T 1 0 2 0 0 0 1 1 0 ; C 1 0 ; F 1 1 ; U 2 0 1 ; UD 3 0 1",
     "bu 3 ; N 0 ; C 1 0 ; LI 0 T 1 0 2 0 0 0 1 1 0",                                # D12
@@ -111,8 +113,29 @@ def shared_finals(rng, enc):
     if rng.random() < 0.4: steps.append("UD 7 1 2")
     if rng.random() < 0.4: steps += ["U 8 0 1", "X 9 8 2"]
     return "%s %d SALT %d%s ; %s" % (enc, len(steps), rng.randrange(12), " MAPS" if rng.random() < 0.3 else "", " ; ".join(steps))
+def repeated_ud(rng, enc):
+    """UnionDisjointStates applied twice (or more) to the SAME left operand with right operands that re-use each other's state numbers
+    (every call satisfies its precondition): what one call leaves behind in a table the left operand shares must not reach the next result
+    (D14). Right operands may mention states without rules (dangling children), which must stay dead."""
+    a = small(rng, 100)
+    steps = ["L 0 " + a.fmt()]
+    k = 1; res = []
+    for _ in range(rng.randint(2, 3)):
+        b = small(rng)
+        if rng.random() < 0.4:
+            st = sorted(b.states()) or [0]
+            f, ar = rng.choice([(2, 1), (3, 2)])
+            b.rules.append((f, rng.choice(st), tuple(rng.choice(st + [max(st) + 1, max(st) + 2]) for _ in range(ar))))
+        steps.append("L %d %s" % (k, b.fmt())); rhs = k; k += 1
+        steps.append("UD %d 0 %d" % (k, rhs)); res.append(k); k += 1
+        if rng.random() < 0.3: steps.append("D %d" % res.pop())
+    if len(res) >= 2 and rng.random() < 0.5: steps.append("U %d %d %d" % (k, res[0], res[1])); k += 1
+    if rng.random() < 0.5: steps.append("%s %d 0" % (rng.choice(["UL", "UR"]), k)); k += 1
+    return "%s %d SALT %d%s ; %s" % (enc, len(steps), rng.randrange(12), " MAPS" if rng.random() < 0.3 else "", " ; ".join(steps))
 def cases(rng, tier):
     cs = [(l, "corpus") for l in CORPUS]
+    for enc in ("bu", "td"):
+        for _ in range(150 if tier == "quick" else 2500): cs.append((repeated_ud(rng, enc), "targeted_repeated_ud"))
     for enc in ("bu", "td"):
         for _ in range(150 if tier == "quick" else 2500): cs.append((shared_finals(rng, enc), "targeted_shared_finals"))
     for enc in ("bu", "td"):
